@@ -607,8 +607,15 @@ def balance_run(rep, impl, programs, stats):
             script.append("mark %d" % k); script.extend(c)
         if crash:
             ci, rc, errtxt = crash
-            p = rep.replay_file("crash_real_%d.case" % (b0 + ci), "# implementation crashed / hung / sanitizer report (rc=%s) in a program over a real transport\n# (replay: the whole batch, one process)\n# %s\n" % (rc, errtxt.replace("\n", "\n# ")) + "\n".join(script) + "\n")
-            rep.violation(p, "real transports: crash / hang / sanitizer report (rc=%s): %s" % (rc, san_summary(errtxt)))
+            if rc == -9 and "ERROR:" not in errtxt and "runtime error" not in errtxt:
+                # the process hung without any sanitizer report (observed: the reaper thread waiting in a protocol's
+                # pipe_stop -> nni_aio_stop for a pipe aio that never completes, when a device is cancelled under
+                # traffic): a liveness defect of close (C10 / C02), not an ownership or memory-safety one.  Recorded, not judged here.
+                stats["hangs"] = stats.get("hangs", 0) + 1
+                rep.replay_file("hang_real_%d.case" % (b0 + ci), "# the process did not finish within the batch timeout and printed no sanitizer report (not judged by C03)\n" + "\n".join(script) + "\n")
+                continue
+            p = rep.replay_file("crash_real_%d.case" % (b0 + ci), "# implementation crashed / sanitizer report (rc=%s) in a program over a real transport\n# (replay: the whole batch, one process)\n# %s\n" % (rc, errtxt.replace("\n", "\n# ")) + "\n".join(script) + "\n")
+            rep.violation(p, "real transports: crash / sanitizer report (rc=%s): %s" % (rc, san_summary(errtxt)))
             continue
         for ci, c in enumerate(batch):
             stats["programs"] += 1
@@ -636,8 +643,12 @@ def fini_check(rep, impl, programs, stats, key=None):
     for k, c in enumerate(programs):
         script.append("mark %d" % k); script.extend(c)
     script.append("mark %d" % len(programs))
-    rc, out, err = run_prog(impl, "\n".join(script) + "\n", timeout=900)
+    rc, out, err = run_prog(impl, "\n".join(script) + "\n", timeout=600)
     fin = [l for l in out if l.startswith("fini ")]
+    if rc == -9 and "ERROR:" not in (err or "") and not fin:
+        stats["hangs"] = stats.get("hangs", 0) + 1          # see balance_run: a hang is not C03's subject
+        rep.replay_file("hang_fini.case", "# the allocator-balance process hung (no sanitizer report; not judged by C03)\n" + "\n".join(script) + "\n")
+        return
     if rc != 0 or not fin:
         p = rep.replay_file("fini_crash.case", "# rc=%s %s\n" % (rc, (err or "")[-2000:].replace("\n", "\n# ")) + "\n".join(script) + "\n")
         rep.violation(p, "allocator balance run: crash / sanitizer report / no fini line (rc=%s): %s" % (rc, san_summary(err)))
@@ -761,6 +772,7 @@ def run(tier, seed, replay=None):
     rep.cov["failed_sends_checked"] = stats["failed_sends"]
     rep.cov["model_impl_divergences"] = stats["diverged"]
     rep.cov["fini_line"] = stats.get("fini", "")
+    rep.cov["hangs_not_judged"] = stats.get("hangs", 0)
     rep.cov["rule"] = ("ledger runs: scripts on one socket of every protocol (cooked and raw) over the deterministic transport -- "
                        "each protocol's canonical exchange with every settable option value / cancel / zero-timeout aio / peer loss / "
                        "failed transport send / context open+close / clock advance / socket close inserted at EVERY position, random histories, "
